@@ -16,7 +16,10 @@ from exactly_lib.impls.os_services import os_services_access  # noqa: E402
 from exactly_lib.section_document import model  # noqa: E402
 from exactly_lib.section_document.source_location import SourceLocationInfo, SourceLocation, \
     source_location_path_without_inclusions  # noqa: E402
-from exactly_lib.symbol.sdv_structure import SymbolReference  # noqa: E402
+from exactly_lib.symbol.sdv_structure import SymbolReference, SymbolDefinition, SymbolContainer, \
+    SymbolDependentValue  # noqa: E402
+from exactly_lib.symbol.value_type import ValueType  # noqa: E402
+from exactly_lib.type_val_deps.sym_ref.restrictions import ValueTypeRestriction  # noqa: E402
 from exactly_lib.test_case import test_case_doc  # noqa: E402
 from exactly_lib.test_case.hard_error import HardErrorException  # noqa: E402
 from exactly_lib.test_case.phases.act.actor import Actor, ActionToCheck, ParseException  # noqa: E402
@@ -37,7 +40,8 @@ from exactly_lib.util.line_source import LineSequence  # noqa: E402
 from exactly_lib.util.name_and_value import NameAndValue  # noqa: E402
 
 from vf.stubs_kinds import *  # noqa: E402,F401,F403
-from vf.stubs_kinds import PHASES, VALIDATION, HARD_RET, HARD_RAISE, FAIL, EXC, SYNTAX, UNDEF  # noqa
+from vf.stubs_kinds import PHASES, VALIDATION, HARD_RET, HARD_RAISE, FAIL, EXC, SYNTAX, UNDEF, UNDEF_IN_DEF, \
+    DUP_DEF, WRONG_TYPE  # noqa
 
 
 class StubError(Exception):
@@ -129,9 +133,34 @@ def _pfh(kind, where):
     raise ValueError(kind)
 
 
+class _StubSdv(SymbolDependentValue):
+    def __init__(self, references=()):
+        self._references = list(references)
+
+    @property
+    def references(self):
+        return self._references
+
+    def resolve(self, symbols):
+        return 'value'
+
+
+def _definition(name, references=()):
+    return SymbolDefinition(name, SymbolContainer(_StubSdv(references), ValueType.STRING, None))
+
+
 def _symbols(kind, where):
     if kind is None:
         return []
+    ident = where.replace('/', '_').replace('-', '_')
+    if kind == UNDEF_IN_DEF:
+        return [_definition('DEFINED_' + ident,
+                            [SymbolReference('UNDEFINED_SYMBOL_' + ident, ValueTypeRestriction.of_single(ValueType.STRING))])]
+    if kind == DUP_DEF:
+        return [_definition('TWICE_' + ident), _definition('TWICE_' + ident)]
+    if kind == WRONG_TYPE:
+        return [_definition('A_STRING_' + ident),
+                SymbolReference('A_STRING_' + ident, ValueTypeRestriction.of_single(ValueType.PATH))]
     if kind == UNDEF:
         return [SymbolReference('UNDEFINED_SYMBOL_' + where.replace('/', '_').replace('-', '_'),
                                 reference_restrictions.is_any_type_w_str_rendering())]
